@@ -253,6 +253,18 @@ func (w *World) Dial(name string, o DialOpts) (*ConnRec, error) {
 		return nil, &net.OpError{Op: "dial", Net: "sim", Err: os.NewSyscallError("connect", syscall.ECONNREFUSED)}
 	}
 	cli, srv := hx.NewConnPair(name)
+	// addresses as the real network reports them: every accepted Unix
+	// connection from an unbound client socket has the same empty peer address;
+	// TCP peers differ by ephemeral port
+	switch l.Network {
+	case "unix":
+		srv.Local, srv.Remote = l.addr, &net.UnixAddr{Name: "", Net: "unix"}
+		cli.Local, cli.Remote = &net.UnixAddr{Name: "", Net: "unix"}, l.addr
+	case "tcp":
+		peer := &net.TCPAddr{IP: net.IPv4(127, 0, 0, 1), Port: 40000 + len(w.Conns)}
+		srv.Local, srv.Remote = l.addr, peer
+		cli.Local, cli.Remote = peer, l.addr
+	}
 	rec := &ConnRec{ID: len(w.Conns), Name: name, cli: cli, srv: srv, DialAt: w.Sim.Now(), ClosedAt: -1}
 	rec.Client = cli
 	srv.R.Frag = o.Frag
